@@ -23,6 +23,8 @@
 #include "stir/ExamInfo.h"
 #include "stir/SSRB.h"
 #include "stir/inverse_SSRB.h"
+#include "stir/interpolate_projdata.h"
+#include "stir/numerics/BSplines.h"
 #include "stir/ProjDataInfoCylindricalArcCorr.h"
 #include "stir/Viewgram.h"
 #include "stir/RelatedViewgrams.h"
@@ -821,6 +823,57 @@ static void mode_zview(vh::Trace& tr, long runs, int stage, vh::Rng& rng) {
   }
 }
 
+// ---------------------------------------------------------------- interpolate_projdata (direct sinograms, same scanner, linear B-splines)
+//   Interp  N R; input: span (1: ring sampling, 3: half-ring sampling), mash, tangential range, axial positions; output: the same with prefix o;
+//           in: integer values [ax][view][tang]; out: values * 2^8 [ax][view][tang]
+static void mode_interp(vh::Trace& tr, long runs, int stage, vh::Rng& rng) {
+  shared_ptr<ExamInfo> ei(new ExamInfo);
+  ei->imaging_modality = ImagingModality::PT;
+  for (long run = 0; run < runs; ++run) {
+    const int N = rng.pick(std::vector<int>{ 24, 32, 24, 40 }), R = rng.range(2, stage ? 5 : 4);
+    auto sc = vh::make_scanner(N, R, 0);
+    Geo gi, go;
+    gi.N = go.N = N; gi.R = go.R = R; gi.maxT = go.maxT = 0; gi.tofMash = go.tofMash = 0; gi.segReduce = go.segReduce = 0;
+    // sampling ratios 1 and 2 (either way) axially (span 1 <-> span 3) and in views (mashing 1 <-> 2)
+    gi.span = rng.coin() ? 1 : 3; go.span = rng.coin() ? 1 : 3;
+    gi.maxDelta = gi.span == 1 ? 0 : 1; go.maxDelta = go.span == 1 ? 0 : 1;
+    gi.mash = rng.coin() ? 1 : 2; go.mash = rng.coin() ? 1 : 2;
+    // symmetric tangential ranges (odd numbers of positions)
+    gi.numTang = 2 * rng.range(1, 4) + 1; go.numTang = std::max(1, gi.numTang + 2 * rng.range(-1, 1));
+    shared_ptr<ProjDataInfo> ii = make_info(sc, gi), oi = make_info(sc, go);
+    ProjDataInMemory in(ei, ii), out(ei, oi);
+    SegmentBySinogram<float> seg = ii->get_empty_segment_by_sinogram(0);
+    std::vector<long long> iv;
+    for (int a = seg.get_min_axial_pos_num(); a <= seg.get_max_axial_pos_num(); ++a)
+      for (int v = seg.get_min_view_num(); v <= seg.get_max_view_num(); ++v)
+        for (int t = seg.get_min_tangential_pos_num(); t <= seg.get_max_tangential_pos_num(); ++t) {
+          const int x = rng.range(0, 15);
+          seg[a][v][t] = (float)x;
+          iv.push_back(x);
+        }
+    in.set_segment(seg);
+    out.fill(7.F);
+    bool ok = false;
+    std::string msg;
+    const bool err = vh::threw([&] { ok = interpolate_projdata(out, in, BSpline::linear, false) == Succeeded::yes; }, &msg);
+    vh::Json j("Interp");
+    j.num("N", N).num("R", R).num("span", gi.span).num("mash", gi.mash).num("minTang", ii->get_min_tangential_pos_num()).num("maxTang", ii->get_max_tangential_pos_num())
+        .num("numAx", ii->get_num_axial_poss(0)).num("nv", ii->get_num_views())
+        .num("ospan", go.span).num("omash", go.mash).num("ominTang", oi->get_min_tangential_pos_num()).num("omaxTang", oi->get_max_tangential_pos_num())
+        .num("onumAx", oi->get_num_axial_poss(0)).num("onv", oi->get_num_views()).arr("in", iv).boolean("err", err).boolean("ok", ok);
+    if (!err) {
+      const SegmentBySinogram<float> os = out.get_segment_by_sinogram(0);
+      std::vector<long long> ov;
+      for (int a = os.get_min_axial_pos_num(); a <= os.get_max_axial_pos_num(); ++a)
+        for (int v = os.get_min_view_num(); v <= os.get_max_view_num(); ++v)
+          for (int t = os.get_min_tangential_pos_num(); t <= os.get_max_tangential_pos_num(); ++t) ov.push_back(vh::fx(os[a][v][t], 8));
+      j.arr("out", ov);
+    } else
+      j.str("msg", msg);
+    tr.emit(j);
+  }
+}
+
 int main(int argc, char** argv) {
   if (argc < 3) { fprintf(stderr, "usage: c15_rebin_zoom <mode> <out.ndjson> ...\n"); return 2; }
   vh::quiet();
@@ -833,6 +886,7 @@ int main(int argc, char** argv) {
   else if (mode == "inv") mode_inv(tr, atol(argv[3]), atoi(argv[4]), rng);
   else if (mode == "down") mode_down(tr, atol(argv[3]), atoi(argv[4]), rng);
   else if (mode == "zview") mode_zview(tr, atol(argv[3]), atoi(argv[4]), rng);
+  else if (mode == "interp") mode_interp(tr, atol(argv[3]), atoi(argv[4]), rng);
   else if (mode == "ext") mode_ext(tr, atol(argv[3]), atoi(argv[4]), rng);
   else if (mode == "zoom") mode_zoom(tr, atol(argv[3]), atoi(argv[4]), rng);
   else if (mode == "zoomr") mode_zoomr(tr, atol(argv[3]), atoi(argv[4]), rng);
